@@ -283,6 +283,13 @@ func c13Exprs(e *Env) []vexpr {
 		vexpr{Expr: "@S{hid: 1}", Type: "@S", Class: "reject-cross", Why: "unexported field key", Kind: "unexported-field"},
 		vexpr{Expr: "@VS.hid", Type: "int", Class: "reject-cross", Why: "unexported field selector", Kind: "unexported-selector"},
 		vexpr{Expr: "float64(x) + 0.5", Type: "float64", Class: "reject", Why: "mentions an injector parameter (not package scope)", Kind: "param-ref", Param: "x int", Local: true},
+		// the parameter is spelled like something the package scope does declare: the copied
+		// expression would silently mean that other thing
+		vexpr{Expr: "V1 + 0", Type: "int", Class: "reject", Why: "mentions an injector parameter spelled like a package-level variable", Kind: "param-ref-shadows-var", Param: "V1 int", Local: true},
+		vexpr{Expr: "Vs", Type: "string", Class: "reject", Why: "mentions an injector parameter spelled like a package-level variable", Kind: "param-ref-shadows-var", Param: "Vs string", Local: true},
+		vexpr{Expr: "C1 * 2", Type: "int", Class: "reject", Why: "mentions an injector parameter spelled like a package-level constant", Kind: "param-ref-shadows-const", Param: "C1 int", Local: true},
+		vexpr{Expr: "[]int{F, 1}", Type: "[]int", Class: "reject", Why: "mentions an injector parameter spelled like a package-level function", Kind: "param-ref-shadows-func", Param: "F int", Local: true},
+		vexpr{Expr: "&PS.A", Type: "*int", Class: "reject", Why: "mentions an injector parameter spelled like a package-level variable", Kind: "param-ref-shadows-var", Param: "PS *S", Local: true},
 	)
 	return out
 }
